@@ -1057,6 +1057,108 @@ def _retrying(f):
     return g
 
 
+def degenerate_cases(algos=None):
+    """the smallest and the extreme members of the families, fixed (no random draws): single endpoint, networks without a
+    router, one-element and unit-dimension arrays, one-level and fan-out-one trees, one-port routers, endpoint counts
+    that are powers of two, an address map with a single entry.  Yields (name, cfg)."""
+    def prot(nm, idw, kind=None, dw=64):
+        p = {"name": nm, "protocol": "AXI4", "data_width": dw, "addr_width": 32, "id_width": idw, "user_width": 1}
+        if kind:
+            p["type"] = kind
+        return p
+
+    def base(name, nt, algo):
+        prots = [prot("axi_in", 3), prot("axi_out", 2)] if nt == "axi" else \
+            [prot("narrow_in", 4, "narrow"), prot("narrow_out", 2, "narrow"),
+             prot("wide_in", 3, "wide", 512), prot("wide_out", 1, "wide", 512)]
+        return {"name": name, "description": "generated", "network_type": nt,
+                "routing": {"route_algo": algo, "use_id_table": True}, "protocols": prots}
+
+    def ep(nt, name, at, role="dual", array=None, size=0x1000):
+        m = ["axi_in"] if nt == "axi" else ["narrow_in", "wide_in"]
+        s_ = ["axi_out"] if nt == "axi" else ["narrow_out", "wide_out"]
+        e = {"name": name}
+        if array is not None:
+            e["array"] = array
+        if role in ("dual", "mgr"):
+            e["mgr_port_protocol"] = m
+        if role in ("dual", "sbr"):
+            e["sbr_port_protocol"] = s_
+            e["addr_range"] = {"base": at, "size": size}
+        return e
+
+    for algo in (algos or ["ID", "SRC", "XY"]):
+        for nt in ("axi", "narrow-wide"):
+            tag = f"{algo}:{nt}"
+            if algo != "XY":
+                # one endpoint on one router; two endpoints and no router at all
+                c = base("one", nt, algo)
+                c.update(endpoints=[ep(nt, "solo", 0x1000)], routers=[{"name": "r"}], connections=[{"src": "solo", "dst": "r"}])
+                yield f"degenerate:one-endpoint:{tag}", c
+                c = base("p2p", nt, algo)
+                c.update(endpoints=[ep(nt, "dma", 0x1000), ep(nt, "mem", 0x8000)], routers=[],
+                         connections=[{"src": "dma", "dst": "mem"}])
+                yield f"degenerate:no-router:{tag}", c
+                # arrays with one element / unit dimensions on a crossbar, next to a plain endpoint
+                for arr in ([1], [1, 1], [1, 3], [3, 1]):
+                    n = arr[0] * arr[-1] if len(arr) == 2 else arr[0]
+                    c = base("unit", nt, algo)
+                    rng_ = [[0, a - 1] for a in arr]
+                    c.update(endpoints=[ep(nt, "tile", 0x10000, array=arr), ep(nt, "host", 0x1000)],
+                             routers=[{"name": "xbar"}],
+                             connections=[dict({"src": "tile", "dst": "xbar", "src_range": rng_}, **({"allow_multi": True} if n > 1 else {})),
+                                          {"src": "host", "dst": "xbar"}])
+                    yield f"degenerate:array{arr}:{tag}", c
+                # trees with one level, fan-out one, a pass-through middle level; a stub router with a single link
+                for tree in ([1], [3], [1, 1], [1, 1, 1], [1, 2, 1]):
+                    leaves = 1
+                    for t in tree:
+                        leaves *= t
+                    c = base("tr", nt, algo)
+                    conns = [{"src": "tile", "dst": "router", "src_range": [[0, leaves - 1]], "dst_lvl": len(tree) - 1},
+                             {"src": "host", "dst": "router", "dst_idx": [0]}]
+                    if tree == [3]:
+                        conns += [{"src": "router", "src_idx": [0], "dst": "router", "dst_idx": [1]},
+                                  {"src": "router", "src_idx": [1], "dst": "router", "dst_idx": [2]}]
+                    c.update(endpoints=[ep(nt, "tile", 0x10000, array=[leaves]), ep(nt, "host", 0x1000)],
+                             routers=[{"name": "router", "tree": tree}], connections=conns)
+                    yield f"degenerate:tree{tree}:{tag}", c
+                c = base("stub", nt, algo)
+                c.update(endpoints=[ep(nt, "a", 0x1000), ep(nt, "b", 0x2000), ep(nt, "c", 0x3000)],
+                         routers=[{"name": "hub"}, {"name": "stub"}, {"name": "spare", "degree": 3}],
+                         connections=[{"src": "a", "dst": "hub"}, {"src": "b", "dst": "hub"}, {"src": "c", "dst": "hub"},
+                                      {"src": "hub", "dst": "stub"}, {"src": "hub", "dst": "spare"}])
+                yield f"degenerate:stub-routers:{tag}", c
+                # endpoint counts that are powers of two; an address map with one entry
+                for k in (2, 4, 8):
+                    c = base("pow2", nt, algo)
+                    c.update(endpoints=[ep(nt, "tile", 0x10000, array=[k])], routers=[{"name": "xbar"}],
+                             connections=[{"src": "tile", "dst": "xbar", "src_range": [[0, k - 1]], "allow_multi": True}])
+                    yield f"degenerate:{k}-endpoints:{tag}", c
+                c = base("onesam", nt, algo)
+                c.update(endpoints=[ep(nt, "cpu", 0, role="mgr"), ep(nt, "dma", 0, role="mgr"), ep(nt, "mem", 0x8000_0000, role="sbr")],
+                         routers=[{"name": "xbar"}],
+                         connections=[{"src": e, "dst": "xbar"} for e in ("cpu", "dma", "mem")])
+                yield f"degenerate:one-sam-entry:{tag}", c
+                # a window that starts at 0 and one that ends exactly at the top of the address space
+                c = base("edges", nt, algo)
+                c.update(endpoints=[ep(nt, "low", 0), dict(ep(nt, "high", 0), addr_range={"start": 0xFFFF_0000, "end": 0x1_0000_0000})],
+                         routers=[{"name": "xbar"}], connections=[{"src": "low", "dst": "xbar"}, {"src": "high", "dst": "xbar"}])
+                yield f"degenerate:space-edges:{tag}", c
+            else:
+                # XY: one router; one row / one column of routers, with endpoints on the local ports and on one side
+                for (m, n) in ((1, 1), (1, 3), (3, 1)):
+                    c = base("line", nt, "XY")
+                    eps = [ep(nt, "tile", 0x10000, array=[m, n])]
+                    conns = [{"src": "tile", "dst": "router", "src_range": [[0, m - 1], [0, n - 1]],
+                              "dst_range": [[0, m - 1], [0, n - 1]], "dst_dir": "Eject"}]
+                    if (m, n) != (1, 1):
+                        eps.append(ep(nt, "io", 0x1000))
+                        conns.append({"src": "io", "dst": "router", "dst_idx": [0, 0], "dst_dir": "West" if n == 1 else "South"})
+                    c.update(endpoints=eps, routers=[{"name": "router", "array": [m, n], "degree": 5}], connections=conns)
+                    yield f"degenerate:mesh{m}x{n}:{tag}", c
+
+
 for _n in ("gen_star", "gen_mesh", "gen_mesh_extra", "gen_tree", "gen_torus", "gen_chain_hub", "gen_tree_bypass",
            "gen_overfull", "gen_degree_mesh", "gen_ring_eject", "gen_hub_bypass", "gen_chain_xbar", "gen_tree_manual",
            "gen_partial_side", "gen_name_prefix_routers", "gen_chain_express", "gen_deep_tree", "gen_tree_fan_dirs"):
